@@ -11,10 +11,10 @@ cherab):
                             over the first/last touched bin, and integrates by GaussianQuadrature(rtol 1e-5))
   total                   : sum(samples) x delta = radiance x fraction of the profile inside the window, the fraction
                             computed from the two window edges only
-  bins_stark_coarse /     : the same two comparisons on Stark grids with bins wider than FWHM/10, where the default
-  total_stark_coarse        quadrature of add_lorentzian_line loses accuracy (continuously: 3e-5 at FWHM/4, 4e-4 at 1-2 FWHM,
+  bins_stark_coarse /     : the same two comparisons on Stark grids with bins wider than FWHM/10 (tolerance 2e-3), where before
+  total_stark_coarse        repo commit 94cac74 the quadrature of add_lorentzian_line lost accuracy (0.5 % at 4-8 FWHM per bin,
                             7 % at 16-40 FWHM, factors beyond); violations there carry the separate mechanism key
-                            StarkBroadenedLine:lorentzian-bin-quadrature-unresolved (known finding, fix proposed)
+                            StarkBroadenedLine:lorentzian-bin-quadrature-unresolved (finding, fixed in the repository)
   integrator_diff /       : StarkBroadenedLine with a user-supplied GaussianQuadrature whose settings were reached by a random
   bins_stark_user /         history of property assignments (min_order / max_order up and down, relative_tolerance) interleaved
   total_user                with integrations: (a) the mutated integrator integrates five test functions to the same value
@@ -56,7 +56,8 @@ ASSUMPTIONS = [
     "physical constants agree with the oracle's to 1e-7 relative (two CODATA sets coexist in the code base)",
     "modified-Lorentzian parts are accepted between the documented truncated profile and the un-truncated one, within "
     "2e-4 relative (20x the documented quadrature tolerance 1e-5); Stark grids with bins wider than FWHM/10 are judged "
-    "with the same tolerance but under the separate key of the known quadrature finding",
+    "with 2e-3 (the two-successive-orders stopping rule can stop early on an interval centred on the inflection point, "
+    "2.6e-4 observed) under the separate key of the (fixed) quadrature finding",
     "StarkBroadenedLine is driven with its default integrator and with user-supplied GaussianQuadrature objects (random "
     "setter histories, final relative_tolerance 1e-9..1e-3, final max_order >= 4, grids with >= 10 bins per FWHM); other "
     "Integrator1D subclasses are not driven",
@@ -86,6 +87,9 @@ _APPROX_WEIGHT = dict(hydrogen=1.008, deuterium=2.014, tritium=3.016, helium=4.0
 EPS = 2.220446049250313e-16
 PHYS = 1e-7                 # relative agreement demanded of physical constants (positions of split components, widths)
 LOR_RTOL = 2e-4             # modified-Lorentzian parts: 20 x the documented GaussianQuadrature tolerance
+LOR_RTOL_COARSE = 2e-3      # bins wider than FWHM/10: the documented stopping rule (two successive orders agree to rtol) can
+                            # stop early when a (sub-)interval is centred on the profile's inflection point (midpoint and
+                            # 2-point rules then agree by accident): up to 2.6e-4 measured on 40 000 targeted grids
 RESOLVED = 0.1              # Stark grids with delta <= RESOLVED x FWHM are "resolved" (>= 10 bins per FWHM)
 BRANCH_GUARD = 1e-6
 
@@ -920,8 +924,8 @@ def run_case(case, ctx):
                 what = ("samples differ from radiance x bin-average of the documented pseudo-Voigt profile "
                         "(band: Lorentzian truncated at +-50 FWHM ... un-truncated, 2e-4 relative)") if resolved else \
                     ("bin width exceeds FWHM/10 and the default GaussianQuadrature does not resolve the modified "
-                     "Lorentzian: samples leave the [truncated, un-truncated] band by more than 2e-4")
-                lor_rtol = LOR_RTOL
+                     "Lorentzian: samples leave the [truncated, un-truncated] band by more than 2e-3")
+                lor_rtol = LOR_RTOL if resolved else LOR_RTOL_COARSE
                 mon_b, mon_t = ("bins_stark", "total") if resolved else ("bins_stark_coarse", "total_stark_coarse")
                 keyt = "%s:window-total:%s%s" % (model, pol, tag) if resolved else key
                 if integ is not None and resolved:
